@@ -623,6 +623,9 @@ def push_cases(rng, n):
             S["globals"].append({"name": "ub", "space": "uniform", "group": "0", "binding": "0", "ty": VEC4})
         if ty is not None:
             S["globals"].append({"name": "pc", "space": "push", "ty": ty})
+            if i % 7 == 3:
+                # a second push constant declaration that no entry point reaches (the first one is the module's push constant block)
+                S["globals"].append({"name": "pc_unused", "space": "push", "ty": {"k": "vec", "n": 4, "s": "f32"}})
         acc = [{"k": "access", "g": "pc", "how": rng.choice(["load", "load", "addr"])}] if ty is not None else []
         # helper chain of depth 2: outer (touches no global) -> inner (reads pc)
         S["functions"].append({"name": "inner", "ret": rng.random() < 0.5, "body": list(acc)})
